@@ -32,6 +32,9 @@
                      one past pos": the offset is dropped and the file is delivered again from its start.  Intended: the
                      list holds the truncated value, as scan_logfiles() would compute it.  Labels: y >= 100 stands for
                      "timestamp y - 100 plus a fraction of a microsecond".
+     "skip_empty"    (never in the code: a design the property rules out) read() passes over a file whose listed size is 0
+                     like over a deleted one - but an empty file is the normal state of the newest file of a writer that
+                     does not flush every record, and it gets its records later.
    With Defects = {} TLC proves the C13 formulas below; with a defect switched on it exhibits the counterexample. *)
 EXTENDS Integers, Sequences, FiniteSets, TLC, FiniteSetsExt, SequencesExt     \* ...Ext: CommunityModules (folds, sorting)
 
@@ -49,7 +52,7 @@ CONSTANTS Readers,      \* read-only RollLog objects, e.g. {"r1", "r2"}
 
 W       == "w"
 Objs    == {W} \cup Readers
-AllActs == {"write", "read", "readblock", "seek", "tell", "refresh", "close", "reopen", "delete", "tick"}
+AllActs == {"write", "writenf", "flush", "read", "readblock", "seek", "tell", "refresh", "close", "reopen", "delete", "tick"}
 Unknown == 0 - 1
 TsAll   == 1..(MaxTs + MaxWrites)      \* the intended design may bump a timestamp past MaxTs
 NoFile  == [ino |-> 0, off |-> 0, buf |-> <<>>]
@@ -69,6 +72,8 @@ VARIABLES
                 \*                          object's read buffer; ino = 0: None
   closed,       \* [Objs -> BOOLEAN]        close() was called (write_file/read_file is False)
   wfile,        \* inode open for writing (self.write_file), 0 = None
+  wbuf,         \* cells written into write_file that are still in the file object's buffer (write(..., flush=False)):
+                \* they reach the inode with flush(), a flushing write, the roll-over or close()
   total,        \* self.logfiles_size of the writer
   pos,          \* [Objs -> position]       the last tell() result kept by the caller, for seek(pos)
   \* ---- history variables, used only by the property formulas
@@ -80,12 +85,14 @@ VARIABLES
   ndel, nreo, npos,  \* counters bounding Delete, Close/Reopen, seek/tell/refresh
   ev            \* observation of the last step (what the caller of the method sees); excluded from VIEW
 
-vars == <<fsz, tsz, dir, data, nino, recsz, clock, lf, ridx, rf, closed, wfile, total, pos, last, destroyed, taintf,
+vars == <<fsz, tsz, dir, data, wbuf, nino, recsz, clock, lf, ridx, rf, closed, wfile, total, pos, last, destroyed, taintf,
           maxused, ndel, nreo, npos, ev>>
-view == <<fsz, tsz, dir, data, nino, recsz, clock, lf, ridx, rf, closed, wfile, total, pos, last, destroyed, taintf,
+view == <<fsz, tsz, dir, data, wbuf, nino, recsz, clock, lf, ridx, rf, closed, wfile, total, pos, last, destroyed, taintf,
           maxused, ndel, nreo, npos>>
 
-NoEv == [act |-> "init", o |-> W, chunk |-> <<>>, newts |-> 0, existed |-> FALSE, unl |-> {}, wts |-> 0]
+\* n flips with every step: no step of a method leaves `vars` unchanged, so the step formulas [][F]_vars are evaluated on
+\* every call - also on a read() that finds nothing and changes nothing, twice in a row
+NoEv == [act |-> "init", o |-> W, chunk |-> <<>>, newts |-> 0, existed |-> FALSE, unl |-> {}, wts |-> 0, n |-> 0]
 
 (* ---------------------------------------------------------------------------------------------------------------- *)
 \* (Min and Max of a set of numbers: FiniteSetsExt)
@@ -140,7 +147,7 @@ RECURSIVE RLoop(_, _, _, _, _)
 RLoop(l, S, f, auto, block) ==
   LET n == Len(l) IN
   IF f.ino = 0 THEN
-    IF dir[l[S + 1].ts] # 0
+    IF dir[l[S + 1].ts] # 0 /\ ~("skip_empty" \in Defects /\ l[S + 1].sz = 0)
     THEN RLoop(l, S, TLCEval([ino |-> dir[l[S + 1].ts], off |-> 0, buf |-> <<>>]), auto, block)          \* l.305 open by NAME
     ELSE IF S + 1 >= n                                                            \* l.307-310 file is gone: skip it
          THEN IF ~auto THEN Res(l, S + 1, NoFile, <<>>)                           \* l.311
@@ -183,7 +190,7 @@ PruneOf(l) ==
 
 (* ---------------------------------------------------------------------------------------------------------------- *)
 InitRest ==
-  /\ dir = [t \in TsAll |-> 0] /\ data = [i \in 1..MaxWrites |-> <<>>] /\ nino = 0 /\ recsz = <<>>
+  /\ dir = [t \in TsAll |-> 0] /\ data = [i \in 1..MaxWrites |-> <<>>] /\ wbuf = <<>> /\ nino = 0 /\ recsz = <<>>
   /\ clock = 1
   /\ lf = [o \in Objs |-> <<>>] /\ ridx = [o \in Objs |-> 0] /\ rf = [o \in Objs |-> NoFile]
   /\ closed = [o \in Objs |-> FALSE] /\ wfile = 0 /\ total = 0 /\ pos = [o \in Objs |-> NoPos]
@@ -191,8 +198,11 @@ InitRest ==
   /\ ev = NoEv
 Init == fsz \in FileSizes /\ tsz \in TotalSizes /\ InitRest
 
-(* write(data, timestamp) (l.180-258).  t = 0: no timestamp given, the file name comes from the clock (l.477). *)
-Write(sz, t) ==
+(* write(data, timestamp, flush) (l.180-258).  t = 0: no timestamp given, the file name comes from the clock (l.477).
+   fl = FALSE: write(..., flush=False) / a writer constructed with flush=False - the record stays in the file object's buffer
+   (the records of one file are far smaller than that buffer) until flush(), a flushing write, the roll-over or close(); the
+   writer's own accounting (its file list, logfiles_size, pruning) counts it at once.  Followers see the inode, not the buffer. *)
+Write(sz, t, fl) ==
   /\ ~closed[W] /\ Len(recsz) < MaxWrites
   /\ t # 0 => wfile = 0                          \* the timestamp is only looked at when a file is created (l.228-233)
   /\ LET id   == Len(recsz) + 1
@@ -206,7 +216,7 @@ Write(sz, t) ==
          ino  == IF ~new THEN wfile ELSE IF exi THEN dir[nts] ELSE nino + 1       \* l.233 open(path, 'wb')
          old  == IF exi THEN data[ino] ELSE <<>>                                  \* content lost by truncation
          dir1 == IF new THEN [dir EXCEPT ![nts] = ino] ELSE dir
-         cont == (IF new THEN <<>> ELSE data[ino]) \o [i \in 1..sz |-> id]        \* l.242
+         pend == (IF new THEN <<>> ELSE wbuf) \o [i \in 1..sz |-> id]             \* l.242 write_file.write(data)
          lf1  == IF new THEN Append(lf[W], [ts |-> nts, sz |-> 0, fr |-> frac /\ "frac_ts" \in Defects])
                  ELSE lf[W]                                                        \* l.240
          cur  == Last(lf1)
@@ -221,7 +231,10 @@ Write(sz, t) ==
         /\ (new /\ "overwrite" \notin Defects) => nts > maxused
         /\ maxused' = IF new /\ nts > maxused THEN nts ELSE maxused
         /\ recsz' = Append(recsz, sz)
-        /\ data' = [data EXCEPT ![ino] = cont]
+        /\ LET base   == IF new THEN <<>> ELSE data[ino]
+               todisk == fl \/ cur.sz + sz >= fsz                                  \* l.250-256: close() or flush()
+           IN /\ data' = [data EXCEPT ![ino] = IF todisk THEN base \o pend ELSE base]
+              /\ wbuf' = IF todisk THEN <<>> ELSE pend
         /\ nino' = IF new /\ ~exi THEN nino + 1 ELSE nino
         /\ dir' = [x \in TsAll |-> IF x \in unl THEN 0 ELSE dir1[x]]
         /\ destroyed' = destroyed \cup Ids(old)
@@ -232,7 +245,7 @@ Write(sz, t) ==
         /\ rf' = [rf EXCEPT ![W] = IF p.cut # 0 /\ rb < 0 THEN NoFile ELSE @]     \* l.543-546
         /\ wfile' = IF cur.sz + sz >= fsz THEN 0 ELSE ino                         \* l.250-253 roll over AFTER the write
         /\ ev' = [act |-> "write", o |-> W, chunk |-> <<>>, newts |-> IF new THEN nts ELSE 0, existed |-> exi,
-                  unl |-> unl, wts |-> cur.ts]
+                  unl |-> unl, wts |-> cur.ts, n |-> 1 - ev.n]
   /\ UNCHANGED <<fsz, tsz, clock, closed, pos, last, ndel, nreo, npos>>
 
 (* read() / read_block() (l.260-356). *)
@@ -241,8 +254,8 @@ ReadAct(o, block, name) ==
   /\ LET r == ReadRes(o, block \/ Bin) IN
      /\ lf' = [lf EXCEPT ![o] = r.lf] /\ ridx' = [ridx EXCEPT ![o] = r.ridx] /\ rf' = [rf EXCEPT ![o] = r.rf]
      /\ last' = [last EXCEPT ![o] = IF r.chunk = <<>> THEN @ ELSE Last(r.chunk)]
-     /\ ev' = [NoEv EXCEPT !.act = name, !.o = o, !.chunk = r.chunk]
-  /\ UNCHANGED <<fsz, tsz, dir, data, nino, recsz, clock, closed, wfile, total, pos, destroyed, taintf, maxused, ndel, nreo, npos>>
+     /\ ev' = [NoEv EXCEPT !.n = 1 - ev.n, !.act = name, !.o = o, !.chunk = r.chunk]
+  /\ UNCHANGED <<fsz, tsz, dir, data, wbuf, nino, recsz, clock, closed, wfile, total, pos, destroyed, taintf, maxused, ndel, nreo, npos>>
 Read(o)      == ReadAct(o, FALSE, "read")
 ReadBlock(o) == ReadAct(o, TRUE, "readblock")
 
@@ -256,8 +269,8 @@ Tell(o) ==
   /\ ~closed[o]
   /\ pos' = [pos EXCEPT ![o] = TellOf(o)]
   /\ npos < MaxPosOps /\ npos' = npos + 1
-  /\ ev' = [NoEv EXCEPT !.act = "tell", !.o = o]
-  /\ UNCHANGED <<fsz, tsz, dir, data, nino, recsz, clock, lf, ridx, rf, closed, wfile, total, last, destroyed, taintf, maxused,
+  /\ ev' = [NoEv EXCEPT !.n = 1 - ev.n, !.act = "tell", !.o = o]
+  /\ UNCHANGED <<fsz, tsz, dir, data, wbuf, nino, recsz, clock, lf, ridx, rf, closed, wfile, total, last, destroyed, taintf, maxused,
                  ndel, nreo>>
 
 (* seek(pos) (l.382-438) to a saved position p. *)
@@ -281,8 +294,8 @@ Seek(o, how) ==    \* how: 0 = ('start', 0), 1 = ('end', 0), 2 = the saved posit
      /\ ridx' = [ridx EXCEPT ![o] = r.ridx] /\ rf' = [rf EXCEPT ![o] = r.rf]
      /\ last' = [last EXCEPT ![o] = p.cur]
   /\ npos < MaxPosOps /\ npos' = npos + 1
-  /\ ev' = [NoEv EXCEPT !.act = "seek", !.o = o]
-  /\ UNCHANGED <<fsz, tsz, dir, data, nino, recsz, clock, lf, closed, wfile, total, pos, destroyed, taintf, maxused, ndel, nreo>>
+  /\ ev' = [NoEv EXCEPT !.n = 1 - ev.n, !.act = "seek", !.o = o]
+  /\ UNCHANGED <<fsz, tsz, dir, data, wbuf, nino, recsz, clock, lf, closed, wfile, total, pos, destroyed, taintf, maxused, ndel, nreo>>
 
 (* refresh() (l.453-462): read-only objects only. *)
 Refresh(o) ==
@@ -290,18 +303,29 @@ Refresh(o) ==
   /\ LET r == RefreshOf(lf[o], ridx[o], rf[o]) IN
      lf' = [lf EXCEPT ![o] = r.lf] /\ ridx' = [ridx EXCEPT ![o] = r.ridx] /\ rf' = [rf EXCEPT ![o] = r.rf]
   /\ npos < MaxPosOps /\ npos' = npos + 1
-  /\ ev' = [NoEv EXCEPT !.act = "refresh", !.o = o]
-  /\ UNCHANGED <<fsz, tsz, dir, data, nino, recsz, clock, closed, wfile, total, pos, last, destroyed, taintf, maxused, ndel,
+  /\ ev' = [NoEv EXCEPT !.n = 1 - ev.n, !.act = "refresh", !.o = o]
+  /\ UNCHANGED <<fsz, tsz, dir, data, wbuf, nino, recsz, clock, closed, wfile, total, pos, last, destroyed, taintf, maxused, ndel,
                  nreo>>
 
-(* close() (l.162-173). *)
+(* flush() (l.175-178) *)
+Flush ==
+  /\ ~closed[W]
+  /\ data' = IF wfile # 0 THEN [data EXCEPT ![wfile] = @ \o wbuf] ELSE data
+  /\ wbuf' = <<>>
+  /\ ev' = [NoEv EXCEPT !.n = 1 - ev.n, !.act = "flush"]
+  /\ UNCHANGED <<fsz, tsz, dir, nino, recsz, clock, lf, ridx, rf, closed, wfile, total, pos, last, destroyed, taintf, maxused,
+                 ndel, nreo, npos>>
+
+(* close() (l.162-173): write_file.close() flushes. *)
 Close(o) ==
   /\ ~closed[o] /\ nreo < MaxReopens
   /\ closed' = [closed EXCEPT ![o] = TRUE] /\ rf' = [rf EXCEPT ![o] = NoFile]
   /\ wfile' = IF o = W THEN 0 ELSE wfile
+  /\ data' = IF o = W /\ wfile # 0 THEN [data EXCEPT ![wfile] = @ \o wbuf] ELSE data
+  /\ wbuf' = IF o = W THEN <<>> ELSE wbuf
   /\ nreo' = nreo + 1
-  /\ ev' = [NoEv EXCEPT !.act = "close", !.o = o]
-  /\ UNCHANGED <<fsz, tsz, dir, data, nino, recsz, clock, lf, ridx, total, pos, last, destroyed, taintf, maxused, ndel, npos>>
+  /\ ev' = [NoEv EXCEPT !.n = 1 - ev.n, !.act = "close", !.o = o]
+  /\ UNCHANGED <<fsz, tsz, dir, nino, recsz, clock, lf, ridx, total, pos, last, destroyed, taintf, maxused, ndel, npos>>
 
 (* a new object on the same directory: __init__ (l.127-135): scan, prune (writer), the time-traveller guard, read
    position at the end.  Enabled only when the constructor does not raise (l.132). *)
@@ -315,28 +339,29 @@ Reopen(o) ==
      /\ dir' = [x \in TsAll |-> IF x \in unl THEN 0 ELSE dir[x]]
      /\ lf' = [lf EXCEPT ![o] = l2] /\ ridx' = [ridx EXCEPT ![o] = Len(l2)]       \* l.135
      /\ total' = IF o = W THEN p.total ELSE total
-     /\ ev' = [NoEv EXCEPT !.act = "reopen", !.o = o, !.unl = unl, !.wts = IF l2 = <<>> THEN 0 ELSE Last(l2).ts]
+     /\ ev' = [NoEv EXCEPT !.n = 1 - ev.n, !.act = "reopen", !.o = o, !.unl = unl, !.wts = IF l2 = <<>> THEN 0 ELSE Last(l2).ts]
   /\ closed' = [closed EXCEPT ![o] = FALSE] /\ rf' = [rf EXCEPT ![o] = NoFile]
   /\ last' = [last EXCEPT ![o] = Unknown] /\ pos' = [pos EXCEPT ![o] = NoPos]
-  /\ UNCHANGED <<fsz, tsz, data, nino, recsz, clock, wfile, destroyed, taintf, maxused, ndel, nreo, npos>>
+  /\ UNCHANGED <<fsz, tsz, data, wbuf, nino, recsz, clock, wfile, destroyed, taintf, maxused, ndel, nreo, npos>>
 
 (* the environment: somebody deletes a log file; the wall clock moves (forwards or backwards). *)
 Delete(t) ==
   /\ dir[t] # 0 /\ ndel < MaxDeletes
   /\ dir' = [dir EXCEPT ![t] = 0] /\ ndel' = ndel + 1
-  /\ ev' = [NoEv EXCEPT !.act = "delete"]
-  /\ UNCHANGED <<fsz, tsz, data, nino, recsz, clock, lf, ridx, rf, closed, wfile, total, pos, last, destroyed, taintf, maxused,
+  /\ ev' = [NoEv EXCEPT !.n = 1 - ev.n, !.act = "delete"]
+  /\ UNCHANGED <<fsz, tsz, data, wbuf, nino, recsz, clock, lf, ridx, rf, closed, wfile, total, pos, last, destroyed, taintf, maxused,
                  nreo, npos>>
 Tick(t) ==
   /\ t # clock /\ clock' = t
-  /\ ev' = [NoEv EXCEPT !.act = "tick"]
-  /\ UNCHANGED <<fsz, tsz, dir, data, nino, recsz, lf, ridx, rf, closed, wfile, total, pos, last, destroyed, taintf, maxused,
+  /\ ev' = [NoEv EXCEPT !.n = 1 - ev.n, !.act = "tick"]
+  /\ UNCHANGED <<fsz, tsz, dir, data, wbuf, nino, recsz, lf, ridx, rf, closed, wfile, total, pos, last, destroyed, taintf, maxused,
                  ndel, nreo, npos>>
 
 (* ---- labelled next-state relation (DESIGN 3.2): l = [a, o, x, y] ------------------------------------------------ *)
 Lab(a, o, x, y) == [a |-> a, o |-> o, x |-> x, y |-> y]
 Labels ==
-       {Lab("write", W, s, t) : s \in Sizes, t \in 0..MaxTs}
+       {Lab(a, W, s, t) : a \in {"write", "writenf"}, s \in Sizes, t \in 0..MaxTs}
+  \cup {Lab("flush", W, 0, 0)}
   \cup (IF "frac_ts" \in Defects /\ W \in Active THEN {Lab("write", W, s, 100 + t) : s \in Sizes, t \in 1..MaxTs} ELSE {})
   \cup {Lab(a, o, 0, 0) : a \in {"read", "readblock", "tell", "close", "reopen"}, o \in Objs}
   \cup {Lab("seek", o, h, 0) : o \in Objs, h \in 0..2}
@@ -346,7 +371,9 @@ Labels ==
 NextL(l) ==
   /\ l.a \in Acts
   /\ l.a \in {"read", "readblock", "seek", "tell", "refresh"} => l.o \in Active
-  /\ CASE l.a = "write"     -> Write(l.x, l.y)
+  /\ CASE l.a = "write"     -> Write(l.x, l.y, TRUE)
+       [] l.a = "writenf"   -> Write(l.x, l.y, FALSE)
+       [] l.a = "flush"     -> Flush
        [] l.a = "read"      -> ~Bin /\ Read(l.o)      \* in 'bin' mode read() is read_block()
        [] l.a = "readblock" -> ReadBlock(l.o)
        [] l.a = "tell"      -> Tell(l.o)
